@@ -45,7 +45,7 @@ theorem onType_heal_some (reg : List (String × Addr)) (h : Heap) (a : Addr) : (
   split
   · simp
   · rename_i t _
-    split <;> simp only [onComposite, compositeRest, onInputObject, inputRest, onUnion, onLeaf]
+    split <;> simp only [onComposite, compositeRest, rebuiltOrSame, onInputObject, inputRest, onUnion, onLeaf]
     all_goals (try split) <;> (try split) <;> simp
 
 theorem visitTypes_heal_some (reg : List (String × Addr)) : ∀ (l : List (String × Addr)) (h : Heap),
@@ -150,12 +150,12 @@ theorem onType_some (v : Visitor) (hv : NoTypeDelete v) (reg : List (String × A
     simp only [onType]
     split
     · simp
-    · split <;> simp [onComposite, compositeRest, onInputObject, inputRest, onUnion, onLeaf]
+    · split <;> simp [onComposite, compositeRest, rebuiltOrSame, onInputObject, inputRest, onUnion, onLeaf]
   | sdir d w =>
     simp only [onType]
     split
     · simp
-    · split <;> simp [onComposite, compositeRest, onInputObject, inputRest, onUnion, onLeaf]
+    · split <;> simp [onComposite, compositeRest, rebuiltOrSame, onInputObject, inputRest, onUnion, onLeaf]
 
 theorem visitTypes_some (v : Visitor) (hv : NoTypeDelete v) (reg : List (String × Addr)) : ∀ (l : List (String × Addr)) (h : Heap),
     ∀ x, x ∈ (visitTypes v reg h l).2 → x.2 ≠ none := by
